@@ -10,7 +10,8 @@
     ckptLost     commands/checkpoint.rs:get_checkpoint_entry_for_file — the `from_checkpoint` read of the latest
                  entry's blob: `.unwrap_or_default()` = `.empty`; anything that mentions the current content = `.current`
     initialLost  what a reader of INITIAL does with a claim whose RECORDED snapshot cannot be read:
-                 git/repo_storage.rs:read_initial_attributions drops such claims = `.drop`; otherwise the readers
+                 git/repo_storage.rs:read_initial_attributions drops such claims = `.drop` (/repo 0b914ae9, df0a718d);
+                 otherwise the readers
                  (checkpoint.rs `initial_snapshot.unwrap_or_else(|| current_content.clone())`,
                  virtual_attribution.rs:from_just_working_log `line_attributions_to_attributions(line_attrs, &file_content)`)
                  take the line numbers to describe the file as it is now = `.current`
@@ -71,7 +72,9 @@ structure WLog where
   deriving DecidableEq, Repr
 
 /-- per-line authors applied to a content BY LINE NUMBER (`line_attributions_to_attributions` on that content):
-    as long as the content; lines beyond the claims are nobody's -/
+    as long as the content; lines beyond the claims are nobody's. (The code converts RANGES and drops a range that
+    reaches beyond the content as a whole; per line this model keeps the part inside — it credits a superset of what
+    the code credits whenever the content is shorter than the claims, never less.) -/
 def positional : List Author → List Nat → List Author
   | _, [] => []
   | [], _ :: cs => none :: positional [] cs
